@@ -52,7 +52,7 @@ var (
 // scenario description
 
 type c07Step struct {
-	op  string // dg f1 f2 rp re sl wc we
+	op  string // dg f1 f2 rp r0 re sl wc we
 	id  uint32
 	dst string
 	d   int64
@@ -66,6 +66,13 @@ func c07Re(id uint32) c07Step             { return c07Step{op: "re", id: id} }
 func c07Sl(d int64) c07Step               { return c07Step{op: "sl", d: d} }
 func c07Wc(id uint32) c07Step             { return c07Step{op: "wc", id: id} } // until a socket of id has been Close()d
 func c07We(id uint32) c07Step             { return c07Step{op: "we", id: id} } // until a Close event of id has been logged
+
+// c07R0 is a remote reply with an EMPTY payload (a zero-length UDP datagram: ReadFrom returns n == 0,
+// err == nil). It is a packet read from the session's socket like any other: it goes back to the
+// client tagged with the session's id and it is traffic for the idle clause. Added after the
+// independently seeded change C07-9 (the reply loop took a zero-length read for "nothing read":
+// neither stamped the last activity nor relayed it).
+func c07R0(id uint32) c07Step { return c07Step{op: "r0", id: id} }
 
 type c07Scn struct {
 	name     string
@@ -122,6 +129,7 @@ type c07Rep struct {
 	act   c07Act
 	read  bool
 	sends int
+	empty bool // zero-length payload: recognised on the way back by order, not by content
 }
 
 type c07Sock struct {
@@ -178,6 +186,7 @@ type c07World struct {
 	socks   []*c07Sock
 	reps    []*c07Rep
 	repTag  map[byte]*c07Rep
+	rep0    []*c07Rep // empty replies read from a socket and not yet seen in SendMessage, in read order
 	evs     []*c07Ev
 	live    map[uint32]bool
 	ents    map[*udpSessionEntry]*c07Ent
@@ -280,6 +289,19 @@ func (io *c07IO) SendMessage(buf []byte, msg *protocol.UDPMessage) error {
 	var r *c07Rep
 	if len(msg.Data) > 0 {
 		r = w.repTag[msg.Data[0]]
+	} else if len(w.rep0) > 0 {
+		// an empty message carries no tag: it is the oldest empty reply read from the socket of the
+		// session it names and not yet sent (each reply loop relays in read order); if that session
+		// read none, the oldest of any session - the tag oracle below then reports the mix-up
+		k := 0
+		for i, c := range w.rep0 {
+			if c.sock.session == msg.SessionID {
+				k = i
+				break
+			}
+		}
+		r = w.rep0[k]
+		w.rep0 = append(w.rep0[:k:k], w.rep0[k+1:]...)
 	}
 	if r == nil {
 		w.e.Fail("C07 isolation: message sent to the client that no remote produced (session %d)", msg.SessionID)
@@ -384,6 +406,15 @@ func (s *c07Sock) name() string { return fmt.Sprintf("c07.sock%d", s.idx) }
 
 func (s *c07Sock) ReadFrom(b []byte) (int, string, error) {
 	w := s.w
+	// coming back for the next packet is the reply loop's next observable action after a read: a
+	// reply it read and did not send (yet) has been handled by now - its last-activity stamp, if the
+	// loop sets one at all, is set (added after the independently seeded change C07-9, which dropped
+	// empty replies between the read and the stamp)
+	for _, r := range s.reps {
+		if r.read && !r.act.done {
+			r.act.hi, r.act.sDone, r.act.done = w.e.Now(), w.next(), true
+		}
+	}
 	w.e.Point("net", func() bool { return len(s.inbox) > 0 || s.closed || s.readErr != nil }, s.name()+".ReadFrom")
 	if s.closed {
 		return 0, "", c07ErrClosed
@@ -398,6 +429,11 @@ func (s *c07Sock) ReadFrom(b []byte) (int, string, error) {
 	s.inbox = s.inbox[1:]
 	r.read = true
 	r.act.lo, r.act.sDel = w.e.Now(), w.next()
+	if r.empty {
+		w.rep0 = append(w.rep0, r)
+		w.logf("sock%d read %c (empty)", s.idx, r.tag)
+		return 0, r.from, nil
+	}
 	w.logf("sock%d read %c", s.idx, r.tag)
 	return copy(b, r.data), r.from, nil
 }
@@ -583,7 +619,7 @@ func (w *c07World) runEnv(script []c07Step) {
 				}
 				return false
 			}, "c07.wait-close-event")
-		case "rp", "re":
+		case "rp", "r0", "re":
 			e.Point("env", func() bool { return w.stop || w.latestSock(st.id) != nil }, "c07.wait-socket")
 			s := w.latestSock(st.id)
 			if s == nil {
@@ -598,14 +634,18 @@ func (w *c07World) runEnv(script []c07Step) {
 			}
 			r := &c07Rep{tag: 'a' + w.nRep, sock: s, from: s.addr}
 			w.nRep++
-			r.data = []byte(strings.Repeat(string(rune(r.tag)), 8))
+			if st.op == "r0" {
+				r.empty = true
+			} else {
+				r.data = []byte(strings.Repeat(string(rune(r.tag)), 8))
+				w.repTag[r.tag] = r
+			}
 			w.reps = append(w.reps, r)
-			w.repTag[r.tag] = r
 			s.reps = append(s.reps, r)
 			if !s.closed {
 				s.inbox = append(s.inbox, r)
 			}
-			w.logf("env rp sock%d %c closed=%v", s.idx, r.tag, s.closed)
+			w.logf("env %s sock%d %c closed=%v", st.op, s.idx, r.tag, s.closed)
 		}
 	}
 }
@@ -784,6 +824,9 @@ func (w *c07World) coverage() {
 		}
 		if r.read {
 			f["reply-forwarded"] = true
+		}
+		if r.empty && r.sends > 0 {
+			f["empty-reply-forwarded"] = true
 		}
 	}
 	for k := range w.covx {
@@ -995,6 +1038,13 @@ func c07Scenarios() []*c07Scn {
 		{name: "reply-keeps-alive", quick: q, thorough: t,
 			envs:   [][]c07Step{{c07Dg(1, "x:1"), c07Sl(3 * s / 2), c07Rp(1)}},
 			checks: []int64{3*s + c07Eps, 9*s/2 + c07Eps}},
+		// the same with EMPTY replies as the session's only traffic after its first datagram: a
+		// zero-length datagram from the remote is forwarded tagged with the session's id and keeps the
+		// session alive like any other (1.5 s and 3 s: survives the sweeps up to 5 s, expires at 6 s).
+		// Added after the independently seeded change C07-9 (zero-length reads skipped as "nothing read")
+		{name: "empty-reply-keeps-alive", quick: q, thorough: t,
+			envs:   [][]c07Step{{c07Dg(1, "x:1"), c07Sl(3 * s / 2), c07R0(1), c07Sl(3 * s / 2), c07R0(1)}},
+			checks: []int64{5*s + c07Eps, 13*s/2 + c07Eps}},
 		// expiry at the 3 s sweep, the same id comes back at 4 s: fresh session on a new socket,
 		// which is still open when the connection is lost
 		{name: "expire-then-reuse", quick: q, thorough: t,
